@@ -119,3 +119,89 @@ class Spy(contextlib.AbstractContextManager):
             setattr(PandoraMachine, name, orig)
         self._saved.clear()
         return False
+
+
+class DeepSpy(Spy):
+    """Spy that also wraps the processing methods of every registered plugin class and records, per step callback,
+    on which side (L = the machine's left objects, R = its right objects) each method was applied.
+    `calls` = list of (configured step name, scale, method name, side)."""
+
+    TARGETS = [
+        ("matching_cost", "AbstractMatchingCost", "matching_cost_methods_avail", "compute_cost_volume", "img0"),
+        ("aggregation", "AbstractAggregation", "aggreg_methods_avail", "cost_volume_aggregation", "img0"),
+        ("optimization", "AbstractOptimization", "optimization_methods_avail", "optimize_cv", "cv0"),
+        ("semantic_segmentation", "AbstractSemanticSegmentation", "segmentation_methods_avail", "compute_semantic_segmentation", "cv0"),
+        ("cost_volume_confidence", "AbstractCostVolumeConfidence", "confidence_methods_avail", "confidence_prediction", "cv3"),
+        ("disparity", "AbstractDisparity", "disparity_methods_avail", "to_disp", "cv0"),
+        ("filter", "AbstractFilter", "filter_methods_avail", "filter_disparity", "disp0"),
+        ("refinement", "AbstractRefinement", "subpixel_methods_avail", "subpixel_refinement", "disp1"),
+        ("validation", "AbstractValidation", "validation_methods_avail", "disparity_checking", "disp0"),
+        ("validation", "AbstractInterpolation", "interpolation_methods_avail", "interpolated_disparity", "disp0"),
+        ("multiscale", "AbstractMultiscale", "multiscale_methods_avail", "disparity_range", "disp0"),
+    ]
+
+    def __init__(self, after=None, before=None):
+        super().__init__(after=self._after, before=self._before)
+        self._user_after, self._user_before = after, before
+        self.calls: List[tuple] = []
+        self._cur = None
+        self._deep_saved = []
+
+    def _before(self, machine, step, kind):
+        self._cur = (machine, step, machine.current_scale)
+        if self._user_before:
+            self._user_before(machine, step, kind)
+
+    def _after(self, machine, step, kind):
+        if self._user_after:
+            self._user_after(machine, step, kind)
+        self._cur = None
+
+    def _side(self, how, args):
+        machine = self._cur[0]
+        kind, idx = how[:-1], int(how[-1])
+        obj = args[idx] if idx < len(args) else None
+        if kind == "img":
+            return "L" if obj is machine.left_img else ("R" if obj is machine.right_img else "?")
+        if kind == "cv":
+            return "L" if obj is machine.left_cv else ("R" if obj is machine.right_cv else "?")
+        return "L" if obj is machine.left_disparity else ("R" if obj is machine.right_disparity else "?")
+
+    def __enter__(self):
+        super().__enter__()
+        import pandora
+        from pandora import (aggregation, cost_volume_confidence, disparity, filter as pfilter, matching_cost, multiscale,
+                             optimization, refinement, semantic_segmentation, validation)
+
+        mods = {"AbstractMatchingCost": matching_cost, "AbstractAggregation": aggregation, "AbstractOptimization": optimization,
+                "AbstractSemanticSegmentation": semantic_segmentation, "AbstractCostVolumeConfidence": cost_volume_confidence,
+                "AbstractDisparity": disparity, "AbstractFilter": pfilter, "AbstractRefinement": refinement,
+                "AbstractValidation": validation, "AbstractInterpolation": validation, "AbstractMultiscale": multiscale}
+        seen = set()
+        for kind, absname, registry, meth, how in self.TARGETS:
+            abscls = getattr(mods[absname], absname)
+            for concrete in set(getattr(abscls, registry).values()):
+                # the method may be inherited (e.g. subpixel_refinement lives in the abstract class)
+                cls = next((c for c in concrete.__mro__ if meth in c.__dict__), None)
+                if cls is None or (cls, meth) in seen:
+                    continue
+                seen.add((cls, meth))
+                orig = cls.__dict__[meth]
+
+                def make(orig=orig, meth=meth, how=how):
+                    def wrapper(obj, *args, **kwargs):
+                        if self._cur is not None:
+                            self.calls.append((self._cur[1], self._cur[2], meth, self._side(how, args)))
+                        return orig(obj, *args, **kwargs)
+
+                    return wrapper
+
+                self._deep_saved.append((cls, meth, orig))
+                setattr(cls, meth, make())
+        return self
+
+    def __exit__(self, *exc):
+        for cls, meth, orig in self._deep_saved:
+            setattr(cls, meth, orig)
+        self._deep_saved.clear()
+        return super().__exit__(*exc)
